@@ -64,6 +64,6 @@ def run_p(seed, tier, replay=None):
 
 
 def run(seed, tier, replay=None):
-    return mix.merge(run_p(seed, tier, replay), mix.check([mix.mon_argv_env], seed, tier, 13, 60))
+    return mix.merge(run_p(seed, tier, replay), mix.check([mix.mon_argv_env], seed, tier, 14, 60))
 
 KNOWN_MATCHERS = {}
